@@ -6,6 +6,7 @@ from pyvc.dsl import *   # noqa
 from cloudsync.sync.state import TRASHED, MISSING, EXISTS, UNKNOWN, LIKELY_TRASHED, CORRUPT
 from cloudsync.sync.manager import FINISHED, PUNT, REQUEUE
 from cloudsync.types import DIRECTORY, FILE, IgnoreReason
+import cloudsync.exceptions as ex
 
 
 @lemma(props=["C03", "C07", "C02"], configs="sides", raises=["Exception"])
@@ -394,3 +395,33 @@ def rename_to_fix_conflict_follows_the_moved_object(w: World, path: str):
         else:
             check(sync[side].oid == oid0 or sync[side].oid is None, "another object was moved: this entry keeps its id (unless ousted)")
         check(sync.ignored == ign0, "an ordinary conflict rename never sets the entry aside")
+
+
+@lemma(props=["C03", "C10"], configs="sides", raises=["NotImplementedError", "Exception"],
+       stubs={"cloudsync.sync.manager:SyncManager.unsafe_mkdir_synced": {"results": ["FINISHED", "PUNT"], "havoc": False},
+              "cloudsync.sync.manager:SyncManager.rename_to_fix_conflict": {"results": ["True", "False"], "havoc": False},
+              "cloudsync.sync.manager:SyncManager.handle_file_name_error": {"results": ["None"], "raises": False, "havoc": False}})
+def mkdir_synced_fault_table(w: World, translated_path: str):
+    """L3.9 / L10.5: the wrapper around making a folder: it never writes to a provider itself; the folder is attempted at
+    most once, for this entry and the translated path; while another live entry sits at the same path an entry that was
+    never punted waits (PUNT, nothing attempted); a bad name freezes the entry (FINISHED); a missing parent is a PUNT for
+    an entry that was not punted yet; the entry itself is never dropped"""
+    mgr = w.mgr
+    sync = w.entry("sync")
+    changed = w.changed
+    synced = w.synced
+    ign0 = sync.ignored
+    prio = sync.priority
+    r = mgr.mkdir_synced(changed, sync, translated_path)
+    mk = calls("unsafe_mkdir_synced")
+    check(len(provider_writes()) == 0, "the wrapper itself writes nothing")
+    check(len(mk) <= 1, "the folder is attempted at most once")
+    for c in mk:
+        check(c.args[0] == changed and c.args[1] == synced and c.args[2] is sync and c.args[3] == translated_path,
+              "for this entry, this direction and the translated path")
+    check(sync.ignored == ign0, "the entry itself is never dropped here")
+    if len(calls("rename_to_fix_conflict")) > 0:
+        check(prio > 0, "a conflicting live entry is renamed aside only for an entry that was punted before")
+    if len(calls("handle_file_name_error")) > 0:
+        check(r == FINISHED, "a bad name finishes the entry")
+    check(r is None or r == FINISHED or r == PUNT, "finished, punt, or nothing (retry)")
